@@ -116,7 +116,7 @@ pub enum Diff {
     TableDetail(String),
 }
 
-fn table_expected(e: &Expect) -> Vec<(String, Option<(Vec<(String, Option<String>)>, Option<String>)>)> {
+fn table_expected(e: &Expect, crlf: bool) -> Vec<(String, Option<(Vec<(String, Option<String>)>, Option<String>)>)> {
     let mut v = Vec::new();
     for (k, t) in &e.table {
         if k.starts_with("SV_COV_") {
@@ -136,7 +136,12 @@ fn table_expected(e: &Expect) -> Vec<(String, Option<(Vec<(String, Option<String
                         let head = if m.formals.is_some() { d.find(')').map(|i| i + 1).unwrap_or(0) } else { "`define ".len() + m.name.len() };
                         // a default text may contain ')': find the end of the formal list by construction
                         let head = if m.formals.is_some() { formal_list_end(&d, m) } else { head };
-                        d[head..].trim().to_string()
+                        let b = d[head..].trim().to_string();
+                        if crlf {
+                            b.replace('\n', "\r\n")
+                        } else {
+                            b
+                        }
                     });
                     Some((formals, body))
                 }
@@ -164,6 +169,10 @@ fn formal_list_end(d: &str, m: &MacroDef) -> usize {
 }
 
 pub fn compare(exp: &Expect, obs: &Result<(String, Defs), ObsErr>) -> Diff {
+    compare_crlf(exp, obs, false)
+}
+
+pub fn compare_crlf(exp: &Expect, obs: &Result<(String, Defs), ObsErr>, crlf: bool) -> Diff {
     match (&exp.error, obs) {
         (Some(e), Err(ObsErr::Known(o))) => {
             if e == o {
@@ -199,7 +208,7 @@ pub fn compare(exp: &Expect, obs: &Result<(String, Defs), ObsErr>) -> Diff {
                     exp.tokens.len()
                 ));
             }
-            let et = table_expected(exp);
+            let et = table_expected(exp, crlf);
             let ot: Vec<_> = canon_defines(defs, false, true);
             let ek: Vec<&String> = et.iter().map(|x| &x.0).collect();
             let ok: Vec<&String> = ot.iter().map(|x| &x.0).collect();
